@@ -143,7 +143,10 @@ class TlcResult:
     def coverage_zero_actions(self):
         """names of actions that TLC reports as never taken (needs -coverage)"""
         zero = []
-        for m in re.finditer(r"^<(\w+) line \d+, col \d+ to line \d+, col \d+ of module (\w+)>: (\d+):(\d+)", self.out, flags=re.M):
+        # TLC prints interim coverage every minute of a long run: only the last block is the final count
+        pos = self.out.rfind("The coverage statistics at")
+        text = self.out[pos:] if pos >= 0 else self.out
+        for m in re.finditer(r"^<(\w+) line \d+, col \d+ to line \d+, col \d+ of module (\w+)>: (\d+):(\d+)", text, flags=re.M):
             if int(m.group(3)) == 0 and int(m.group(4)) == 0:
                 zero.append(m.group(1))
         return zero
